@@ -1,3 +1,5 @@
+#[cfg(cachelito_verif)]
+use crate::verif_seams::sim_std as std;
 use std::sync::atomic::{AtomicU64, Ordering};
 
 /// Cache statistics for monitoring hit/miss rates and performance.
